@@ -444,6 +444,39 @@ def run_copies(template, rng, rec, mon):
             rec.count("history_call_raised")
 
 
+def run_neighbours(comp, cfg, rng, rec, mon):
+    """The same utterance through one computer before and after *other* computers have worked in the same process - computers of
+    nearly the same configuration (a longer or shorter frame that rounds to the same DFT size, another shift): the features are
+    the same bit for bit.  (The replay on a new instance cannot see this by itself: it runs after the neighbours too.)"""
+    fl, fs = comp.frame_length, comp.frame_shift
+    x = gen.signal(rng, 3 * fl + 2 * fs + 5, "noise", np.float64)
+    x.setflags(write=False)
+    before = np.array(comp.compute_full(x), copy=True)
+    rate = comp.sampling_rate
+    D = 1 << max(1, int(np.ceil(np.log2(max(fl, 2)))))
+    variants = []
+    if cfg.get("name") == "stft":
+        for fl2 in sorted({D, (fl + D + 1) // 2, max(2, fl - 1), fl + 1}):
+            if fl2 != fl:
+                variants.append(dict(cfg, frame_length_ms=(fl2 + 0.25) * 1000.0 / rate))
+    variants.append(dict(cfg, frame_shift_ms=(fs + 1.25) * 1000.0 / rate))
+    n = 0
+    with monitor.quiet():
+        for v in variants:
+            try:
+                other = gen.build(v)
+                other.compute_full(gen.signal(rng, 2 * other.frame_length + 3 * other.frame_shift + 1, "noise_big", np.float64))
+                n += 1
+            except Exception:
+                pass
+    after = comp.compute_full(x)
+    rec.ev()
+    rec.count("utterances_repeated_after_neighbouring_computers_worked", 1 if n else 0)
+    if not _bitsame(before, after):
+        mon.v("the same utterance through the same computer gives other features after %d computers of neighbouring configurations worked in the process" % n,
+              check="neighbours", **mon.info(comp))
+
+
 def make_cfg(seed, idx):
     rng = rng_for(seed, "C04", idx, 0)
     if idx % 3 == 2:
@@ -495,6 +528,12 @@ def run_case(case, rec, mon=None):
                     o.finalize()
                 except Exception:
                     pass
+    if comps and case["idx"] % 5 == 2:
+        try:
+            run_neighbours(comps[0], cfg, rng, rec, mon)
+        except Exception as e:
+            rec.note("neighbour scenario raised %r" % (e,))
+            rec.count("history_call_raised")
     if comps:
         sig = run_history(comps, rng, rec, mon, case["n_utts"])
         rec.count("histories")
